@@ -22,7 +22,8 @@ import (
 )
 
 func newBufferedFile(filename string) (*bufferedFile, error) {
-	f, err := os.Create(filename)
+	// Never truncate: a file of that name may hold an earlier connection's frames.
+	f, err := os.OpenFile(filename, os.O_RDWR|os.O_CREATE|os.O_EXCL, 0666)
 	if err != nil {
 		return nil, err
 	}
